@@ -29,7 +29,11 @@ pub struct ReadOutcome {
 pub fn check_read(fc: &FileCtx, o: &Opts, fresh_metadata: bool) -> Result<ReadOutcome, (String, String)> {
     let (exp_rows, exp_schema, bs) = fc.reference(o);
     let r = catch(|| -> Result<ReadOutcome, (String, String)> {
-        let err = |what: &str, e: String| (format!("c06:reader:error:{}:{}", what, vcore::strip_digits(&e)), e);
+        // one fingerprint per library error message (whether it surfaces from build() or next() is immaterial)
+        let err = |what: &str, e: String| {
+            let core = e.rsplit("Parquet error: ").next().unwrap_or(&e).to_string();
+            (format!("c06:reader:error:{}", vcore::strip_digits(&core)), format!("{what}: {e}"))
+        };
         let b = if fresh_metadata {
             let ro = ArrowReaderOptions::new().with_page_index_policy(if o.page_index { PageIndexPolicy::Optional } else { PageIndexPolicy::Skip });
             ParquetRecordBatchReaderBuilder::try_new_with_options(fc.f.bytes.clone(), ro).map_err(|e| err("open", e.to_string()))?
@@ -227,10 +231,19 @@ fn run_reader(ctx: &Ctx, st: &mut Stats) {
     let sids: Vec<usize> = (0..6).collect();
     let files = build_files(n, &sids, st);
     let mut blocks: Vec<Block> = vec![];
-    let mut total = 0u64;
     let mut cfg_count = BTreeMap::new();
+    // blocks are ordered by deviation count (then file) so that a time cap cuts the 2-deviation tail first
+    let mut all_cfgs: Vec<(usize, Opts, usize)> = vec![];
     for (fi, fc) in files.iter().enumerate() {
         for (o, ndev) in configs(fc, 2) {
+            all_cfgs.push((fi, o, ndev));
+        }
+    }
+    all_cfgs.sort_by_key(|c| c.2);
+    let mut total = 0u64;
+    {
+        for (fi, o, ndev) in all_cfgs {
+            let fc = &files[fi];
             let core = match (ndev, ctx.quick()) {
                 (0, _) => Core::Full,
                 (1, true) => {
@@ -427,6 +440,15 @@ fn check_unary_alg(bits: &[bool], pres: usize) -> Result<(), (String, String)> {
         ck!(tail.row_count() == bits[kk..].iter().filter(|b| **b).count(), "split_off:tail.row_count", "k={k} {}", tail.row_count());
         ck!(head.selects_any() == bits[..kk].iter().any(|b| *b), "split_off:head.selects_any", "k={k}");
         ck!(tail.selects_any() == bits[kk..].iter().any(|b| *b), "split_off:tail.selects_any", "k={k}");
+        // the same split on a freshly built selection (no cached count / selector run cache)
+        {
+            let mut cold_tail = build_alg(bits, pres);
+            let cold_head = cold_tail.split_off(k);
+            ck!(cold_head.row_count() == bits[..kk].iter().filter(|b| **b).count(), "split_off:head.row_count(cold)", "k={k} {}", cold_head.row_count());
+            ck!(cold_tail.row_count() == bits[kk..].iter().filter(|b| **b).count(), "split_off:tail.row_count(cold)", "k={k} {}", cold_tail.row_count());
+            ck!(denote(&cold_head).0 == bits[..kk] && denote(&cold_tail).0 == bits[kk..], "split_off(cold)", "k={k}");
+            ck!(cold_head == head && cold_tail == tail, "eq:split_off cold vs cached", "k={k}");
+        }
         // repeated split of the tail
         if l - kk >= 1 {
             let mut t2 = tail.clone();
